@@ -191,7 +191,11 @@ class IterWorld:
 
     # --------------------------------------------------------------- to_async
     async def ticker(self):
-        while not self.finished:
+        # The ticker observes that the loop stays responsive.  It gives up a generous while after every producer step and
+        # consumer pause could have happened: if the consumer is still pending then, nothing else keeps the loop busy, the run
+        # goes quiescent and is judged a hang (a ticker that ticks for ever would only turn a hang into a step-cap).
+        horizon = 60.0 + 4 * (sum(self.prog['delays']) + (len(self.prog['elems']) + 2) * (self.prog['consumer_delay'] + 1.0))
+        while not self.finished and self.sch.clock < horizon:
             self.ticks.append(self.sch.clock)
             await asyncio.sleep(self.prog['tick'])
 
